@@ -226,6 +226,35 @@ Theorem C20live_end_to_end_delivers : forall d lls lld ctx c D tag,
 Proof. exact lpl_e2e_delivers. Qed.
 Print Assumptions C20live_end_to_end_delivers.
 
+(* ... with the completeness hypotheses in terms of the frames themselves: by the time of a every frame
+   of the sender has arrived from the sender's addresses, and a's own frame had not arrived before
+   (a is the last missing fragment); any order the tracker can follow, any duplicates, any other
+   well-formed traffic in between.  e2e_sender x: x carries the sender's link-layer addresses and one
+   of the octet strings the sender emitted. *)
+Theorem C20live_end_to_end_delivers_all_frames : forall d lls lld ctx c D tag,
+  lp_dgram_wf d lls lld -> lp_compressed d lls lld = Ok c -> lp_ipv6_bytes d = Ok D ->
+  lp_ctx_wf ctx -> 0 <= tag < 65536 ->
+  lpf_needs_frag (blen c) (lpf_ieee_len (lpl_ll_bytes lld) (lpl_ll_bytes lls)) = true -> blen c <= lpf_BUFFER ->
+  forall fill txfill timeout, 0 <= fill < 256 -> 0 <= txfill < 256 ->
+  forall octs, lpl_tx_octets d lls lld tag fill txfill = Ok octs ->
+  forall pre a post ss, let k := (lpl_ll_bytes lls, lpl_ll_bytes lld, blen D, tag) in
+  0 <= timeout -> kstate D k ss None -> Forall (e2e_arrival_ok lls lld ctx D tag octs) (pre ++ a :: post) ->
+  let a0 := hd a pre in
+  e2e_sender lls lld octs a0 ->
+  (exists j, (j < length ss)%nat /\ slot_avail (ar_time a0) (nth j ss lpf_slot_new)) ->
+  Forall (fun x => ar_time x <= ar_time a0 + timeout) (pre ++ [a]) ->
+  gaps_fit lpf_N D k asm_new (map (lpl_ev_of ctx) (pre ++ [a])) ->
+  e2e_sender lls lld octs a ->
+  (forall o, In o octs -> exists x, In x (pre ++ [a]) /\ e2e_sender lls lld octs x /\ ar_payload x = o) ->
+  (forall x, In x pre -> e2e_sender lls lld octs x -> ar_payload x <> ar_payload a) ->
+  exists ss' rs_pre rs_post st',
+    lpl_run ctx timeout (pre ++ a :: post) ss = Ok (ss', rs_pre ++ Some D :: rs_post) /\
+    kstate D k ss' st' /\ length rs_pre = length pre /\
+    Forall2 (fun x r => ev_is k (lpl_ev_of ctx x) -> r = None) pre rs_pre /\
+    Forall2 (fun x r => ev_is k (lpl_ev_of ctx x) -> r = None \/ r = Some D) post rs_post.
+Proof. exact lpl_e2e_delivers_all_frames. Qed.
+Print Assumptions C20live_end_to_end_delivers_all_frames.
+
 (* the arrival order of the wire, no loss: every frame the sender emitted, in order, each polled no
    later than reassembly_timeout after the first, at a receiver with no slot claimed for the key and
    a free or expired slot: nothing before the last frame, exactly D at the last frame -- no condition
